@@ -247,6 +247,21 @@ class SrcInfo:
         c = self._pick(self.enums, path)
         return None if c is None else c[1]
 
+    def enum_variants_for(self, path, variant):
+        """like enum_variants, but an ambiguous type name is resolved by the variant it must contain"""
+        try:
+            return self.enum_variants(path)
+        except KeyError:
+            cands = [c for c in self.enums.get(self.last_seg(path), []) if any(v[0] == variant for v in c[1])]
+            if len(cands) == 1:
+                return cands[0][1]
+            if len(cands) > 1 and len(set(tuple((v[0], v[1], tuple(v[2])) for v in c[1] if v[0] == variant) for c in cands)) == 1:
+                # same discriminant and arity in every candidate: any of them gives the same value
+                idxs = set([v[1] for v in c[1] if v[0] == variant][0] for c in cands)
+                if len(idxs) == 1:
+                    return cands[0][1]
+            raise
+
     def impl_info(self, span):
         """span = 'src/database/room.rs:35:1: 35:10' -> (self_type_last_seg, trait_last_seg or None)"""
         if span in self.impl_cache:
